@@ -79,9 +79,13 @@ def edge_convention(ctx, rule_id="EDGE-CONV"):
     r = ctx.rule(rule_id, "every copy of the local edge convention uses the vertex pairs of _EDGE_LOCAL in the same order", 6)
     m = ctx.repo.mod(GRID)
     fn = m.fn("_vertices_from_edge_index")
-    src = unparse(fn).replace(" ", "")
-    r.check("element[_EDGE_LOCAL[local_index]]" in src, "_vertices_from_edge_index", GRID, fn.name, fn.lineno, "_vertices_from_edge_index source of convention",
-            "_vertices_from_edge_index no longer reads the vertex pair from _EDGE_LOCAL[local_index]")
+    d = roles.Defs(fn)
+    p = arg_names(fn)
+    rets = [s for s in roles.stores(fn.body, d) if s.op == "return"]
+    pair = "E[_EDGE_LOCAL[K]]"
+    want = {roles.expect("_sort_values(%s[0], %s[1])" % (pair, pair), d, fn.body[-1].lineno, E=p[0], K=p[1])}
+    r.check(len(rets) == 1 and rets[0].value in want, "_vertices_from_edge_index", GRID, fn.name, fn.lineno, "_vertices_from_edge_index source of convention",
+            "_vertices_from_edge_index does not return the sorted vertex pair element[_EDGE_LOCAL[local_index]] (returns `%s`)" % (rets[0].value[:100] if rets else None))
     for rel, fname in EDGE_COPIES:
         f = ctx.repo.mod(rel).fn(fname)
         pairs = edge_pairs(f)
@@ -106,7 +110,8 @@ def run(ctx):
     r2.check(dom_ok, "refine domain indices", GRID, "Grid.refine", ln, "refine domain indices", "domain indices are not repeated 4 times per element")
     bf = m.fn("barycentric_refinement")
     calls = [c for c in ast.walk(bf) if isinstance(c, ast.Call) and unparse(c.func) == "Grid"]
-    okb = len(calls) == 1 and len(calls[0].args) >= 3 and unparse(calls[0].args[2]).replace(" ", "") == "_np.repeat(grid.domain_indices,6)"
+    bdefs = roles.Defs(bf)
+    okb = len(calls) == 1 and len(calls[0].args) >= 3 and roles.canon(calls[0].args[2], bdefs).replace(" ", "") == roles.expect("_np.repeat(G.domain_indices, 6)", bdefs, calls[0].lineno, G=arg_names(bf)[0])
     r2.check(okb, "barycentric domain indices", GRID, "barycentric_refinement", bf.lineno, "barycentric domain indices", "domain indices are not repeated 6 times per element")
     # (b) union
     union(ctx)
@@ -118,44 +123,117 @@ def run(ctx):
     edge_convention(ctx)
 
 
+def _single(lst, what):
+    if len(lst) != 1:
+        raise AnalysisError("%s: expected exactly one, found %d" % (what, len(lst)))
+    return lst[0]
+
+
 def union(ctx):
     m = ctx.repo.mod(GRID)
     fn = m.fn("union")
-    r = ctx.rule("UNION", "union(): odd vertex permutation exactly under swapped_normals, running vertex/element offsets", 4)
-    loops = [s for s in fn.body if isinstance(s, ast.For)]
-    main = [l for l in loops if "enumerate(grids)" in unparse(l.iter)]
-    if len(main) != 1:
-        raise AnalysisError("union: main loop over grids not found")
-    loop = main[0]
-    iff = [s for s in loop.body if isinstance(s, ast.If)]
-    ok_perm = False
-    msg = "no `if swapped_normals[index]` branch"
-    if iff:
-        t = unparse(iff[0].test).replace(" ", "")
-        idxname = loop.target.elts[0].id
-        gname = loop.target.elts[1].id
-        if t == "swapped_normals[%s]" % idxname and iff[0].orelse:
-            tv, ev = iff[0].body[0].value, iff[0].orelse[0].value
-            perm = None
-            if isinstance(tv, ast.Subscript) and unparse(tv.value) == gname + ".elements" and isinstance(tv.slice, ast.Tuple) and isinstance(tv.slice.elts[0], ast.List):
-                perm = [e.value for e in tv.slice.elts[0].elts]
-            odd = perm is not None and sorted(perm) == [0, 1, 2] and _parity(perm) == 1
-            ident = unparse(ev) == gname + ".elements"
-            ok_perm = odd and ident
-            msg = "swapped branch uses vertex permutation %s (must be odd), unswapped branch `%s`" % (perm, unparse(ev))
-    r.check(ok_perm, "orientation reversal", GRID, "union", loop.lineno, "union orientation " + msg, msg)
-    src = [unparse(s).replace(" ", "") for s in loop.body]
-    r.check(any(s == "elements[:,element_offset:element_offset+nelements]=current_elements+vertex_offset" for s in src), "element offset", GRID, "union",
-            loop.lineno, "union element block", "elements are not stored at the running element offset with vertex numbers shifted by the running vertex offset")
-    r.check(any(s == "vertices[:,vertex_offset:vertex_offset+nvertices]=%s.vertices" % loop.target.elts[1].id for s in src), "vertex offset", GRID, "union",
-            loop.lineno, "union vertex block", "vertices are not stored at the running vertex offset")
-    r.check("vertex_offset+=nvertices" in src and "element_offset+=nelements" in src and src.index("vertex_offset+=nvertices") > max(i for i, s in enumerate(src) if "current_elements+vertex_offset" in s),
-            "offset updates", GRID, "union", loop.lineno, "union offset updates", "running offsets are not advanced after each grid")
+    r = ctx.rule("UNION", "union(): odd vertex permutation exactly under swapped_normals; vertex, element and domain-index blocks at running offsets advanced after each grid", 5)
+    defs = roles.Defs(fn)
+    params = arg_names(fn)
+    gparam, dparam, sparam = params[0], params[1], params[2]
+    loop = _single([s for s in fn.body if isinstance(s, ast.For) and roles.canon(s.iter, defs) == "enumerate(%s)" % gparam
+                    and isinstance(s.target, ast.Tuple) and len(s.target.elts) == 2 and all(isinstance(e, ast.Name) for e in s.target.elts)], "union: loop over enumerate(%s)" % gparam)
+    idx, g = (e.id for e in loop.target.elts)
+    ret = _single([s for s in fn.body if isinstance(s, ast.Return)], "union: return statement")
+    if not (isinstance(ret.value, ast.Call) and unparse(ret.value.func) == "Grid" and len(ret.value.args) >= 3 and all(isinstance(x, ast.Name) for x in ret.value.args[:3])):
+        raise AnalysisError("union: does not return Grid(<vertices>, <elements>, <domain indices>) built from local arrays")
+    V, E, D = (x.id for x in ret.value.args[:3])
+    S = roles.stores(loop.body, defs)
+    ln = loop.body[-1].lineno
+    ex = lambda src, line=ln, **kw: roles.expect(src, defs, line, G=g, I=idx, **kw)
+    # running counters: the names advanced by the number of vertices / elements of the current grid
+    counters = {}
+    for what, attr, alt in (("vertex", "G.number_of_vertices", "G.vertices.shape[1]"), ("element", "G.number_of_elements", "G.elements.shape[1]")):
+        hits = [s for s in S if s.op == "Add=" and isinstance(s.tnode, ast.Name) and s.value in (ex(attr, s.node.lineno), ex(alt, s.node.lineno)) and not s.guards and not s.loops]
+        counters[what] = hits[0] if len(hits) == 1 else None
+    okc = all(counters.values())
+    init_ok = okc and all(any(isinstance(st, ast.Assign) and unparse(st.targets[0]) == c.target and isinstance(st.value, ast.Constant) and st.value.value == 0 and st.lineno < loop.lineno
+                              for st in fn.body) for c in counters.values())
+    r.check(okc and init_ok, "running offsets", GRID, "union", loop.lineno, "union offset counters",
+            "no unique pair of counters initialised to 0 and advanced by the current grid's vertex / element count in the loop over the grids" if not okc else "offset counters are not initialised to 0 before the loop")
+    if not okc:
+        return
+    VO, EO = counters["vertex"].target, counters["element"].target
+
+    def find(arr, off, cnt, two_d):
+        """Unguarded stores into `arr` whose target is the block [off, off + count of the current grid)."""
+        shape = "A[:, O:O+N]" if two_d else "A[O:O+N]"
+        out = []
+        for s in S:
+            if s.op != "=" or not isinstance(s.tnode, ast.Subscript) or unparse(s.tnode.value) != arr or s.guards or s.loops:
+                continue
+            alts = {ex(shape, s.node.lineno, A=arr, O=off, N=n) for n in ("G.number_of_" + cnt, "G.%s.shape[1]" % cnt)}
+            if s.target in alts:
+                out.append(s)
+        return out
+
+    vs = find(V, VO, "vertices", True)
+    okv = len(vs) == 1 and vs[0].value == ex("G.vertices", vs[0].node.lineno)
+    r.check(okv, "vertex block", GRID, "union", loop.lineno, "union vertex block", "the vertices of grid i are not stored unchanged in columns [offset, offset + n_i) of the result (found %s)" % [repr(x)[:80] for x in vs])
+    es = find(E, EO, "elements", True)
+    oke = False
+    msg = "no store of the element block at the running element offset"
+    if len(es) == 1:
+        v = es[0].vnode
+        # <current elements> + <vertex offset>
+        cur = None
+        if isinstance(v, ast.BinOp) and isinstance(v.op, ast.Add):
+            for a, b in ((v.left, v.right), (v.right, v.left)):
+                if isinstance(b, ast.Name) and b.id == VO:
+                    cur = a
+        if cur is None:
+            msg = "element block is `%s`: vertex numbers are not shifted by the running vertex offset" % unparse(v)[:80]
+        else:
+            sw = ex("S[I]", S=sparam)
+            if isinstance(cur, ast.Name):
+                branches = {s.guards: s for s in S if s.op == "=" and isinstance(s.tnode, ast.Name) and s.tnode.id == cur.id}
+            else:
+                branches = {}
+            tb, fb = branches.get(((sw, True),)), branches.get(((sw, False),))
+            if tb is None or fb is None or len(branches) != 2:
+                msg = "the element block `%s` is not selected by `if %s[%s]` with one definition per branch" % (unparse(cur)[:60], sparam, idx)
+            else:
+                perm = None
+                tv = tb.vnode
+                if isinstance(tv, ast.Subscript) and roles.canon(tv.value, defs, lv=True) == ex("G.elements", tb.node.lineno):
+                    sl = tv.slice
+                    first = sl.elts[0] if isinstance(sl, ast.Tuple) else sl
+                    rest_ok = not isinstance(sl, ast.Tuple) or (len(sl.elts) == 2 and isinstance(sl.elts[1], ast.Slice) and sl.elts[1].lower is None and sl.elts[1].upper is None)
+                    if isinstance(first, ast.List) and all(isinstance(e, ast.Constant) for e in first.elts) and rest_ok:
+                        perm = [e.value for e in first.elts]
+                odd = perm is not None and sorted(perm) == [0, 1, 2] and _parity(perm) == 1
+                ident = fb.value == ex("G.elements", fb.node.lineno)
+                oke = odd and ident
+                msg = "swapped branch uses vertex permutation %s (must be an odd permutation of 0,1,2), unswapped branch `%s` (must be the elements unchanged)" % (perm, unparse(fb.vnode)[:60])
+    r.check(oke, "element block / orientation reversal", GRID, "union", loop.lineno, "union element block", msg)
+    ds = find(D, EO, "elements", False)
+    okd = len(ds) == 1 and ds[0].value == ex("P[I]", ds[0].node.lineno, P=dparam)
+    r.check(okd, "domain index block", GRID, "union", loop.lineno, "union domain-index block", "domain indices of grid i are not stored at the running element offset from %s[i] (found %s)" % (dparam, [repr(x)[:80] for x in ds]))
+    users = [x.node.lineno for x in vs + es + ds]
+    oko = bool(users) and min(c.node.lineno for c in counters.values()) > max(users)
+    r.check(oko, "offset updates after the stores", GRID, "union", loop.lineno, "union offset updates", "a running offset is advanced before a block of the same grid is stored")
 
 
 def _parity(p):
     inv = sum(1 for i in range(len(p)) for j in range(i + 1, len(p)) if p[i] > p[j])
     return inv % 2
+
+
+def _returned_name(fn, what):
+    rets = [n for n in ast.walk(fn) if isinstance(n, ast.Return)]
+    if not rets or not all(isinstance(x.value, ast.Name) for x in rets) or len({x.value.id for x in rets}) != 1:
+        raise AnalysisError("%s: does not return one local array" % what)
+    return rets[0].value.id
+
+
+def _loopvar(fn, defs, iter_src, what, **bind):
+    hits = [s for s in ast.walk(fn) if isinstance(s, ast.For) and isinstance(s.target, ast.Name) and roles.canon(s.iter, defs, lv=True).replace(" ", "") == roles.expect(iter_src, defs, s.lineno, **bind)]
+    return _single(hits, what)
 
 
 def adjacency(ctx):
@@ -170,53 +248,140 @@ def adjacency(ctx):
     r.check(consts["EDGES_ID"] == 2, "EDGES_ID", GRID, "-", m.assigns["EDGES_ID"].lineno, "EDGES_ID = %s" % consts["EDGES_ID"], "elements sharing an edge share 2 vertices; EDGES_ID is %s" % consts["EDGES_ID"])
     r.check(consts["VERTICES_ID"] == 1, "VERTICES_ID", GRID, "-", m.assigns["VERTICES_ID"].lineno, "VERTICES_ID = %s" % consts["VERTICES_ID"], "vertex-adjacent elements share 1 vertex; VERTICES_ID is %s" % consts["VERTICES_ID"])
     ef = m.fn("_element_filter")
-    src = unparse(ef).replace(" ", "")
-    r.check("_np.argwhere(nvertices==filter_type)" in src and "elements1[filtered_indices],elements2[filtered_indices]" in src, "_element_filter", GRID, "_element_filter", ef.lineno,
-            "_element_filter predicate", "filter is not `nvertices == filter_type` applied to both element arrays")
+    edefs = roles.Defs(ef)
+    p = arg_names(ef)
+    rets = [s for s in roles.stores(ef.body, edefs) if s.op == "return"]
+    want = roles.expect("(A[_np.flatnonzero(N == T)], B[_np.flatnonzero(N == T)])", edefs, ef.body[-1].lineno, A=p[0], B=p[1], N=p[2], T=p[3])
+    r.check(len(rets) == 1 and rets[0].value == want and not rets[0].guards, "_element_filter", GRID, "_element_filter", ef.lineno,
+            "_element_filter predicate", "the filter does not return both element arrays at the positions where the shared-vertex count equals the filter type (returns `%s`)" % (rets[0].value[:120] if rets else None))
     g = m.fn("Grid._get_element_adjacency_for_edges_and_vertices")
     defs = roles.Defs(g)
     calls = {unparse(c.func): c for c in ast.walk(g) if isinstance(c, ast.Call)}
-    want = {
-        "_find_vertex_adjacency": "VERTICES_ID", "_find_edge_adjacency": "EDGES_ID",
-    }
     okg = True
     why = []
-    for fname, cid in want.items():
+    for fname, cid in (("_find_vertex_adjacency", "VERTICES_ID"), ("_find_edge_adjacency", "EDGES_ID")):
         c = calls.get(fname)
         if c is None or len(c.args) != 3:
             okg = False
             why.append("%s call missing" % fname)
             continue
-        a1, a2 = roles.canon(c.args[1], defs), roles.canon(c.args[2], defs)
-        base = "_element_filter(_get_element_to_element_vertex_count(get_element_to_element_matrix(self._vertices,self._elements))[0],_get_element_to_element_vertex_count(get_element_to_element_matrix(self._vertices,self._elements))[1],_get_element_to_element_vertex_count(get_element_to_element_matrix(self._vertices,self._elements))[2],%s)" % cid
-        if a1 != base + "[0]" or a2 != base + "[1]" or roles.canon(c.args[0], defs) != "self._elements":
+        cnt = "_get_element_to_element_vertex_count(get_element_to_element_matrix(self._vertices, self._elements))"
+        base = "_element_filter(%s[0], %s[1], %s[2], %s)" % (cnt, cnt, cnt, cid)
+        got = [roles.canon(a, defs).replace(" ", "") for a in c.args]
+        exp = [roles.expect(x, defs, c.lineno) for x in ("self._elements", base + "[0]", base + "[1]")]
+        if got != exp:
             okg = False
-            why.append("%s receives (%s, %s)" % (fname, a1[-60:], a2[-60:]))
+            why.append("%s receives (%s, %s)" % (fname, got[1][-70:], got[2][-70:]))
     r.check(okg, "adjacency construction", GRID, g.name, g.lineno, "adjacency construction " + "; ".join(why), "; ".join(why))
     # layout written by _find_edge_adjacency / _find_vertex_adjacency
-    r2 = ctx.rule("ADJ-LAYOUT", "edge adjacency rows are [elem0, elem1, i0, i1, j0, j1] and vertex adjacency rows [test, trial, i, j]: the layout the singular assembler reads", 2)
+    r2 = ctx.rule("ADJ-LAYOUT", "edge adjacency columns are [elem0, elem1, i0, i1, j0, j1] and vertex adjacency columns [test, trial, i, j] with elements[i, test] == elements[j, trial]: the layout the singular assembler reads", 5)
     fe = m.fn("_find_edge_adjacency")
-    se = unparse(fe).replace(" ", "")
-    oke = ("adjacency[0,index]=elem0" in se and "adjacency[1,index]=elem1" in se and "adjacency[2:,index]=index_pairs.flatten()" in se
-           and "_np.zeros((6,number_of_indices)" in se and "index_pairs=_get_shared_edge_information_for_two_elements(elements,elem0,elem1)" in se)
-    # index_pairs[:, c] = (i_c, j_c): rows are test-local / trial-local, so flatten() is [i0, i1, j0, j1]
+    d = roles.Defs(fe)
+    pe = arg_names(fe)
+    A = _returned_name(fe, "_find_edge_adjacency")
+    lp = _loopvar(fe, d, "range(len(P))", "_find_edge_adjacency: loop over the pairs", P=pe[1])
+    K = lp.target.id
+    S = [s for s in roles.stores(fe.body, d) if isinstance(s.tnode, ast.Subscript) and unparse(s.tnode.value) == A]
+    got = {(s.target, s.value) for s in S if not s.guards}
+    ln = lp.body[-1].lineno
+    ex = lambda src: roles.expect(src, d, ln, A=A, K=K, P0=pe[0], P1=pe[1], P2=pe[2])
+    want = {(ex("A[0, K]"), ex("P1[K]")), (ex("A[1, K]"), ex("P2[K]")), (ex("A[2:, K]"), ex("_get_shared_edge_information_for_two_elements(P0, P1[K], P2[K]).flatten()"))}
+    alloc = d.lookup(A, ln)
+    rows = None
+    if alloc and alloc[0] == "expr" and isinstance(alloc[1], ast.Call) and alloc[1].args and isinstance(alloc[1].args[0], ast.Tuple) and isinstance(alloc[1].args[0].elts[0], ast.Constant):
+        rows = alloc[1].args[0].elts[0].value
+    r2.check(got == want and rows == 6 and len(S) == 3, "_find_edge_adjacency", GRID, fe.name, fe.lineno, "edge adjacency row layout",
+             "columns are not written as [elem0, elem1, shared-index-pairs.flatten()] into a 6-row array (rows=%s, stores=%s)" % (rows, sorted(x[0][-14:] + "=" + x[1][-50:] for x in got)))
+    # the 2x2 pair array: column c = (i_c, j_c), so flatten() is [i0, i1, j0, j1]
     f2 = m.fn("_find_two_common_array_index_pairs")
-    s2 = unparse(f2).replace(" ", "")
-    oke = oke and "index_pairs[:,0]=_find_first_common_array_index_pair_from_position(array1,array2,offset)" in s2 and "index_pairs[:,1]=" in s2
-    r2.check(oke, "_find_edge_adjacency", GRID, fe.name, fe.lineno, "edge adjacency row layout", "rows are no longer written as [elem0, elem1, index_pairs.flatten()] with index_pairs[:, c] = (i_c, j_c)")
+    d2 = roles.Defs(f2)
+    p2 = arg_names(f2)
+    R = _returned_name(f2, "_find_two_common_array_index_pairs")
+    S2 = [s for s in roles.stores(f2.body, d2) if isinstance(s.tnode, ast.Subscript) and unparse(s.tnode.value) == R]
+    l2 = f2.body[-1].lineno
+    F = "_find_first_common_array_index_pair_from_position"
+    got2 = [(s.target, s.value) for s in S2]
+    want2 = [(roles.expect("R[:, 0]", d2, S2[0].node.lineno if S2 else l2, R=R), roles.expect("%s(A, B, 0)" % F, d2, l2, A=p2[0], B=p2[1])),
+             (roles.expect("R[:, 1]", d2, l2, R=R), roles.expect("%s(A, B, R[0, 0] + 1)" % F, d2, l2, A=p2[0], B=p2[1], R=R))]
+    r2.check(got2 == want2, "_find_two_common_array_index_pairs", GRID, f2.name, f2.lineno, "two shared index pairs",
+             "pair c is not stored as column c = (i_c, j_c), with the second search starting behind the first hit (stores %s)" % [x[0][-8:] + "=" + x[1][-60:] for x in got2])
+    # the single-pair search returns (index in array1, index in array2) of a common value
+    f1 = m.fn(F)
+    d1 = roles.Defs(f1)
+    p1 = arg_names(f1)
+    r1 = [s for s in roles.stores(f1.body, d1) if s.op == "return"]
+    lp1 = [s for s in ast.walk(f1) if isinstance(s, ast.For) and isinstance(s.target, ast.Name)]
+    ok1 = False
+    if len(r1) == 1 and len(lp1) == 1:
+        k1 = lp1[0].target.id
+        e = lambda src: roles.expect(src, d1, r1[0].node.lineno, A=p1[0], B=p1[1], S=p1[2], K=k1)
+        ok1 = (r1[0].value == e("(K + S, _compare_array_to_value(B, A[K + S]))") and r1[0].guards == ((e("_compare_array_to_value(B, A[K + S]) != -1"), True),)
+               and roles.canon(lp1[0].iter, d1).replace(" ", "") in (e("range(len(A[S:]))"), e("range(len(A) - S)")))
+    r2.check(ok1, F, GRID, f1.name, f1.lineno, "first common index pair", "does not return (i, j) with i >= start the first position of array1 whose value occurs in array2 at j")
+    fc = m.fn("_compare_array_to_value")
+    dc = roles.Defs(fc)
+    pc = arg_names(fc)
+    rc = [s for s in roles.stores(fc.body, dc) if s.op == "return"]
+    lpc = [s for s in ast.walk(fc) if isinstance(s, ast.For)]
+    okc = False
+    if len(lpc) == 1 and isinstance(lpc[0].target, ast.Tuple) and len(rc) == 2 and roles.canon(lpc[0].iter, dc) == "enumerate(%s)" % pc[0]:
+        i_, e_ = (x.id for x in lpc[0].target.elts)
+        hit = [s for s in rc if s.loops]
+        miss = [s for s in rc if not s.loops]
+        okc = (len(hit) == 1 and len(miss) == 1 and hit[0].value == roles.expect("I", dc, hit[0].node.lineno, I=i_)
+               and hit[0].guards == ((roles.expect("E == V", dc, hit[0].node.lineno, E=e_, V=pc[1]), True),) and miss[0].value == "USub(1)")
+    r2.check(okc, "_compare_array_to_value", GRID, fc.name, fc.lineno, "position of a value", "does not return the position i with array[i] == val (or -1)")
     fv = m.fn("_find_vertex_adjacency")
-    sv = unparse(fv).replace(" ", "")
-    okv = "adjacency[:,index]=(test_index,trial_index,i,j)" in sv and "i,j=_get_shared_vertex_information_for_two_elements(elements,test_index,trial_index)" in sv
-    r2.check(okv, "_find_vertex_adjacency", GRID, fv.name, fv.lineno, "vertex adjacency row layout", "rows are no longer written as (test, trial, i, j)")
+    dv = roles.Defs(fv)
+    pv = arg_names(fv)
+    Av = _returned_name(fv, "_find_vertex_adjacency")
+    lpv = _loopvar(fv, dv, "range(len(P))", "_find_vertex_adjacency: loop over the pairs", P=pv[1])
+    Kv = lpv.target.id
+    Sv = [s for s in roles.stores(fv.body, dv) if isinstance(s.tnode, ast.Subscript) and unparse(s.tnode.value) == Av]
+    lv_ = lpv.body[-1].lineno
+    exv = lambda src: roles.expect(src, dv, lv_, A=Av, K=Kv, P0=pv[0], P1=pv[1], P2=pv[2])
+    call = "_get_shared_vertex_information_for_two_elements(P0, P1[K], P2[K])"
+    okv = len(Sv) == 1 and Sv[0].target == exv("A[:, K]") and Sv[0].value == exv("(P1[K], P2[K], %s[0], %s[1])" % (call, call))
+    r2.check(okv, "_find_vertex_adjacency", GRID, fv.name, fv.lineno, "vertex adjacency row layout", "columns are not written as (test, trial, i, j) with (i, j) the shared local vertex numbers (store %s)" % [repr(x)[-120:] for x in Sv])
+    # the two wrappers pass the vertex columns of the two elements in (elem0, elem1) order
+    for wname, inner in (("_get_shared_vertex_information_for_two_elements", F), ("_get_shared_edge_information_for_two_elements", "_find_two_common_array_index_pairs")):
+        fw = m.fn(wname)
+        dw = roles.Defs(fw)
+        pw = arg_names(fw)
+        cs = [c for c in ast.walk(fw) if isinstance(c, ast.Call) and unparse(c.func) == inner]
+        okw = len(cs) == 1 and [roles.canon(a, dw).replace(" ", "") for a in cs[0].args] == [roles.expect("E[:, A]", dw, cs[0].lineno, E=pw[0], A=pw[1]), roles.expect("E[:, B]", dw, cs[0].lineno, E=pw[0], B=pw[2])]
+        r2.check(okw, wname, GRID, fw.name, fw.lineno, "%s argument order" % wname, "does not search elements[:, elem0] against elements[:, elem1] in this order")
 
 
 def boundary(ctx):
     m = ctx.repo.mod(GRID)
     fn = m.fn("Grid._compute_boundary_information")
-    r = ctx.rule("BOUNDARY-FLAGS", "edge on boundary <=> exactly one adjacent element (diagonal of E^T E == 1); vertices of boundary edges flagged", 1)
+    r = ctx.rule("BOUNDARY-FLAGS", "edge on boundary <=> exactly one adjacent element (diagonal of E^T E == 1, E the element-to-edge incidence); vertices of boundary edges flagged", 2)
     defs = roles.Defs(fn)
-    s = unparse(fn).replace(" ", "")
-    ok = ("arr1=edge_to_edge.diagonal()==1" in s and "edge_to_edge=element_to_edge.T.dot(element_to_edge)" in s
-          and "arr0[self.edges[:,boundary_edge_index]]=True" in s and "forboundary_edge_indexin_np.flatnonzero(arr1)" in s
-          and "self._vertex_on_boundary=arr0" in s and "self._edge_on_boundary=arr1" in s)
-    r.check(ok, "_compute_boundary_information", GRID, fn.name, fn.lineno, "boundary flag construction", "boundary flags are no longer derived from diagonal(E^T E) == 1 / the vertices of those edges")
+    S = roles.stores(fn.body, defs)
+    ln = fn.body[-1].lineno
+    inc = ("csr_matrix((_np.ones(3 * self.number_of_elements), (_np.repeat(_np.arange(self.number_of_elements), 3), _np.ravel(self.element_edges, order='F'))),"
+           " shape=(self.number_of_elements, self.number_of_edges))")
+    want_edge = roles.expect("(%s).T.dot(%s).diagonal() == 1" % (inc, inc), defs, ln)
+    es = [s for s in S if s.target == "self._edge_on_boundary"]
+    oke = len(es) == 1 and es[0].value == want_edge and not es[0].guards
+    r.check(oke, "edge flags", GRID, fn.name, fn.lineno, "boundary edge flags", "self._edge_on_boundary is not `diag(E^T E) == 1` with E the element-to-edge incidence matrix (is `%s`)" % (es[0].value[:160] if es else None))
+    vs = [s for s in S if s.target == "self._vertex_on_boundary"]
+    okv = False
+    msg = "self._vertex_on_boundary is not assigned from a local flag array"
+    if len(vs) == 1 and isinstance(vs[0].vnode, ast.Name):
+        arr = vs[0].vnode.id
+        alloc_ok = vs[0].value in (roles.expect("_np.full(self.number_of_vertices, False)", defs, ln), roles.expect("_np.zeros(self.number_of_vertices, dtype=bool)", defs, ln))
+        marks = [s for s in S if isinstance(s.tnode, ast.Subscript) and unparse(s.tnode.value) == arr]
+        good = False
+        if len(marks) == 1 and marks[0].value == "True" and not marks[0].guards:
+            mk = marks[0]
+            if len(mk.loops) == 1 and isinstance(mk.loops[0].target, ast.Name):
+                k = mk.loops[0].target.id
+                good = (roles.canon(mk.loops[0].iter, defs).replace(" ", "") == "nz(%s)" % want_edge
+                        and mk.target == roles.expect("A[self.edges[:, K]]", defs, mk.node.lineno, A=arr, K=k))
+            elif not mk.loops:
+                good = mk.target in (roles.expect("A[self.edges[:, M]]", defs, mk.node.lineno, A=arr, M="(%s).T.dot(%s).diagonal() == 1" % (inc, inc)),)
+        okv = alloc_ok and good
+        msg = "vertex flags: allocation all-False ok=%s; marks exactly the two vertices self.edges[:, e] of every boundary edge e ok=%s" % (alloc_ok, good)
+    r.check(okv, "vertex flags", GRID, fn.name, fn.lineno, "boundary vertex flags", msg)
